@@ -73,6 +73,9 @@ def dict_event_factory(trait_dict, removed, added, changed):
     # instead.
     removed = removed.copy()
     removed.update(changed)
+    # Copy before merging: "added" is shared with every other notifier of
+    # the dict (and with the TraitDictEvent for the "_items" trait).
+    added = added.copy()
     for key in changed:
         added[key] = trait_dict[key]
     return DictChangeEvent(
